@@ -175,6 +175,46 @@ def mutate_json(rng, j, depth=0):
     return rng.choice([None, [], {}, 0, -1, 2 ** 63, "", "a", True, 1e308, [j], {"a": j}])
 
 
+EXT_VALID = {
+    "decimal": ["1.5", "-0.0", "922337203685477.5807", "-922337203685477.5808", "0.0001"],
+    "ip": ["1.2.3.4", "10.0.0.0/8", "::1", "ffee::/64", "1:2:3:4:5:6:7:8/128", "255.255.255.255/32"],
+    "datetime": ["2024-02-29", "1970-01-01T00:00:00Z", "2024-12-31T23:59:59.999Z", "2000-01-01T01:02:03+0530",
+                 "0000-01-01T00:00:00.000-2359", "9999-12-31T23:59:59.999+0000"],
+    "duration": ["1d2h3m4s5ms", "-1ms", "9223372036854775807ms", "-9223372036854775808ms", "0s", "106751991167d"],
+}
+UNI_DIGITS = "\u0660\u0663\u0669\u06f1\u0967\uff10\uff19\U0001d7ce\u00b2\u2460"
+
+
+def ext_string_case(rng):
+    """extension constructor applied to valid / boundary / mutated strings (Unicode digits,
+       multi-byte characters at regex-group boundaries, overlong inputs)"""
+    fn = rng.choice(list(EXT_VALID))
+    t = rng.choice(EXT_VALID[fn])
+    for _ in range(rng.choice([0, 1, 1, 2, 3])):
+        c = rng.randint(0, 5)
+        pos = rng.randrange(len(t) + 1)
+        if c == 0 and t:
+            pos = min(pos, len(t) - 1)
+            t = t[:pos] + rng.choice(UNI_DIGITS) + t[pos + 1:]
+        elif c == 1:
+            t = t[:pos] + rng.choice(["9", "0", ":", ".", "-", "+", "/", "T", "Z", "d", "ms", " ", "\u00e9", "\U0001F600", "\u0000"]) + t[pos:]
+        elif c == 2 and t:
+            pos = min(pos, len(t) - 1)
+            t = t[:pos] + t[pos + 1:]
+        elif c == 3:
+            t = t + t
+        elif c == 4 and t:
+            pos = min(pos, len(t) - 1)
+            t = t[:pos] + rng.choice("0123456789abcdefABCDEF:./") + t[pos + 1:]
+        else:
+            t = t[:pos] + str(rng.choice([0, 9, 99, 255, 256, 999, 65535, 2 ** 63])) + t[pos:]
+    call = "%s(%s)" % (fn, cedar.str_lit(t))
+    meth = {"decimal": [".lessThan(decimal(\"1.0\"))"], "ip": [".isLoopback()", ".isInRange(ip(\"::/0\"))", ".isIpv4()"],
+            "datetime": [".toDate()", ".toTime()", ".offset(duration(\"1ms\"))", ".durationSince(datetime(\"1970-01-01\"))"],
+            "duration": [".toDays()", ".toMilliseconds()"]}[fn]
+    return call + rng.choice(meth + [""]) + rng.choice(["", " == " + call])
+
+
 def nest(rng, kind):
     d = rng.randint(20, 48)
     if kind == "policy_text":
@@ -212,6 +252,8 @@ def generate(rng, n):
                 t = nest(rng, "policy_text")
             data = t if mut < 0.35 else mutate_bytes(rng, t)
             cases.append({"kind": "policy_text", "data": data})
+        elif c < 7 and rng.random() < 0.5:
+            cases.append({"kind": "expr_text", "data": ext_string_case(rng)})
         elif c < 7:
             for _try in range(5):
                 try:
